@@ -36,6 +36,8 @@ const (
 	dBlock
 	dUnblock
 	dWait
+	dFlushH // ForceFlush whose context ends while its helper is inside a blocked ExportSpans: the call
+	// returns, the export stays in flight holding batchMutex, the worker is free to receive spans
 	dFlushF // ForceFlush whose marker cannot be queued (queue full, worker stuck) before its context ends:
 	// it goes on to export without a marker; its helper goroutine outlives the call and exports later
 )
@@ -62,7 +64,7 @@ func (o dop) coq() string {
 		return "DFlush"
 	case dFlushX:
 		return "DFlushX"
-	case dFlushT, dFlushF:
+	case dFlushT, dFlushF, dFlushH:
 		return "DFlushT" // same call in the model; which select branch is taken follows from the queue being full
 	case dShutdown:
 		return "DShutdown"
@@ -99,6 +101,7 @@ type sim struct {
 	unk      int // items enqueued after the last item known to be consumed
 	drops    int
 	nid      int
+	hstuck   bool // a flush helper is inside a blocked ExportSpans (holds batchMutex); the worker can receive one span and then waits
 	loose    bool // a flush helper is left behind: batches may be cut earlier than predicted (judged as CDetT)
 }
 
@@ -118,7 +121,7 @@ func (s *sim) export(k int) {
 }
 
 func (s *sim) settle() {
-	for !s.fin && !s.stuck {
+	for !s.fin && !s.stuck && !s.hstuck {
 		if !s.drain && s.stopped {
 			s.drain = true
 			continue
@@ -151,6 +154,7 @@ func (s *sim) settle() {
 
 func (s *sim) unblock() {
 	s.mode = modeOK
+	s.hstuck = false
 	if s.stuck {
 		s.stuck = false
 		if s.cont == kFin {
@@ -176,6 +180,10 @@ func (s *sim) allowed(k int, smp bool) bool {
 		if s.stopped || !smp {
 			return true
 		}
+		if s.hstuck {
+			// the worker may or may not have taken one span out of the queue yet: never fill it
+			return len(s.q) < s.c.qcap && s.unk < s.c.qcap
+		}
 		if s.c.blocking {
 			return !s.stuck || len(s.q) < s.c.qcap
 		}
@@ -188,10 +196,13 @@ func (s *sim) allowed(k int, smp bool) bool {
 		return s.stopped || (s.stuck && len(s.q) < s.c.qcap)
 	case dFlushF:
 		return !s.stopped && s.stuck && len(s.q) >= s.c.qcap
+	case dFlushH:
+		// worker free, everything consumed, a non-empty batch below maxBatch, gate set to block
+		return !s.stopped && !s.stuck && !s.hstuck && s.mode == modeBlock && s.batch > 0 && len(s.q) == 0
 	case dShutdown:
 		return s.onceDone || (!s.stuck && s.mode != modeBlock)
 	case dShutdownX:
-		return s.onceDone || s.stuck
+		return s.onceDone || (s.stuck && !s.hstuck)
 	case dMode:
 		return s.mode != modeBlock
 	case dBlock:
@@ -229,6 +240,12 @@ func (s *sim) apply(o *dop) {
 		}
 	case dFlushF:
 		s.loose = true
+	case dFlushH:
+		// marker queued and consumed, helper exports the batch and blocks in the gate
+		s.entries++
+		s.batch = 0
+		s.unk = 0
+		s.hstuck = true
 	case dShutdown:
 		if !s.onceDone {
 			s.stopped = true
@@ -288,6 +305,9 @@ func genProgram(r *vgen.Rand, c cfg, n int) ([]dop, *sim) {
 		default:
 			o = dop{kind: dUnblock}
 		}
+		if (o.kind == dFlushT || o.kind == dFlush) && s.allowed(dFlushH, false) && r.Chance(2, 3) {
+			o = dop{kind: dFlushH}
+		}
 		if o.kind == dFlushT && s.allowed(dFlushF, false) && r.Chance(2, 3) {
 			o = dop{kind: dFlushF}
 		}
@@ -311,6 +331,16 @@ func genProgram(r *vgen.Rand, c cfg, n int) ([]dop, *sim) {
 		}
 		// a burst while the worker is stuck: fill the queue to the brim and beyond
 		push(o)
+		if o.kind == dBlock && s.allowed(dFlushH, false) && r.Chance(1, 2) {
+			// an export started by a flush helper stays in flight; spans keep arriving meanwhile
+			push(dop{kind: dFlushH})
+			for k := r.Range(1, c.qcap); k > 0 && s.allowed(dEnd, true); k-- {
+				e := dop{kind: dEnd, smp: true, id: s.nid, var_: r.Intn(8)}
+				s.nid++
+				push(e)
+			}
+			continue
+		}
 		if o.kind == dBlock && r.Chance(2, 3) {
 			// make the worker enter the blocked export now: End until a batch is cut
 			for k := 0; k < c.maxb+c.qcap+2 && !s.stuck && len(ops) < n+12; k++ {
@@ -440,6 +470,12 @@ func execProgram(c cfg, ops []dop, su detSetup) (res detResult) {
 				ret = rg.flush(ctx, o.via)
 			case dFlushT:
 				ctx := newLazyCtx()
+				ret = rg.flush(ctx)
+				ctx.cancel()
+			case dFlushH:
+				// alive until the third select (wait for the helper): the helper is then in, or on its
+				// way into, the blocked ExportSpans; its result cannot arrive before the context ends
+				ctx := newLazyCtxAt(3)
 				ret = rg.flush(ctx)
 				ctx.cancel()
 			case dFlushF:
@@ -590,6 +626,9 @@ func emitDet(w *vgen.Writer, c cfg, ops []dop, su detSetup, res detResult, kind 
 		"["+strings.Join(retsS, "; ")+"]", "["+strings.Join(bs, "; ")+"]", strconv.Itoa(nsd), coqHistory(evs))
 	hasF := false
 	for _, o := range ops {
+		if o.kind == dFlushH {
+			w.Tally("det:arrival-during-helper-export")
+		}
 		if o.kind == dFlushF {
 			hasF = true
 			w.Tally("det:flush-without-marker")
@@ -867,6 +906,11 @@ func corpusPrograms() []corpusProgram {
 		{"stale marker", cfg{3, 2, false}, []dop{{kind: dBlock}, E, E, E, {kind: dFlushT}, E, {kind: dUnblock}, {kind: dFlush}, {kind: dShutdown}}},
 		// nothing after shutdown
 		{"after shutdown", cfg{2, 2, false}, []dop{E, {kind: dShutdown}, E, {kind: dFlush}, {kind: dShutdown}}},
+		// a span arrives while an export started by a ForceFlush helper is still in flight (the caller's
+		// context ended, the exporter is slow): the worker receives it and must wait for batchMutex;
+		// it is exported afterwards, exactly once
+		{"arrival during a flush helper's export", cfg{2, 3, false}, []dop{E, {kind: dBlock}, {kind: dFlushH}, E, {kind: dUnblock}, {kind: dFlush}, {kind: dShutdown}}},
+		{"arrivals during a flush helper's export, blocking queue", cfg{3, 4, true}, []dop{E, E, {kind: dBlock}, {kind: dFlushH}, E, E, {kind: dUnblock}, E, {kind: dShutdown}}},
 		// drain cuts at maxBatch and makes the final export
 		{"drain", cfg{5, 2, true}, []dop{{kind: dBlock}, E, E, E, E, E, E, E, {kind: dShutdownX}, {kind: dUnblock}}},
 	}
